@@ -75,6 +75,9 @@ func TestPlan(t *testing.T) {
 		// the binary leg of the formatter properties: `spok --fmt` on generated files
 		p.Rule = "binary leg: generated spokfiles (random layouts, comments in every position, side-effect-free loading) formatted in place by `spok --fmt` in the sandbox; the file afterwards is parsed in-process and judged by the same projection as the in-process leg (C11: a second --fmt leaves it byte-identical). Non-trivial: the file changed; distinct by source"
 		binShards("^TestFmtBinary$", 8, 40, 16, 600)
+	case "C06":
+		p.Rule = "binary leg: generated spokfiles (random layouts, comments, lines around 64 KiB) are handed to the real CLI as a file; what `spok --fmt` writes back is the rendering of the tree the CLI built, and must equal the rendering of the tree the parser builds from the same text in-process (so reading the file — encoding, line ends, long lines — loses or alters nothing). Non-trivial: the file changed; distinct by source"
+		binShards("^TestFmtBinary$", 8, 40, 16, 600)
 	case "C18":
 		p.Level = "fault_enumeration"
 		p.Rule = "binary leg: a task whose literal dependencies are regular / empty / directory / missing / dangling link / link / unreadable (mode 0) files in every mixture of up to 6, run through the CLI as an unprivileged user under {plain, --force, --json, --quiet}: spok never dies (signal, panic); with an unopenable dependency and no --force it stops with a message, exits non-zero and does not run the task; otherwise it succeeds"
